@@ -12,7 +12,7 @@ ID = "C19"
 RULE = (
     "case = list of 0..8 events with data over {title, app, url, n} (strings incl. unicode and mixed case, ints, null, lists, missing) x 0..6 rules "
     "(regex from a pool of literals/alternations/anchors/classes/empty/absent, ignore_case, select_keys absent | existing | missing | non-string valued) x "
-    "categories (depth 1..3, equal depths frequent) and tags. Oracle for all four transforms: same length/order/timestamps/durations/ids and every data key "
+    "categories (depth 1..3, equal depths frequent) and tags. categorize and tag are exercised both directly and through the query built-ins of the same name. Oracle for all four transforms: same length/order/timestamps/durations/ids and every data key "
     "the transform does not own unchanged; categorize == deepest matching category, last wins ties, ['Uncategorized'] if none; tag == matching tags in rule "
     "order; reference match = non-empty regex found by re.search (IGNORECASE if asked) in some selected value that is a str; split_url_events adds its six keys "
     "iff 'url' is present (component values are not judged: the property does not state them); simplify_string leaves its input unmodified. "
@@ -169,6 +169,24 @@ def run_case(case):
         exp = [r["tag"] for r in rules if _ref_match(r["rule"], d)]
         if o.data.get("$tags") != exp:
             raise Violation(f"tag: data {d!r} rules {rules!r}: $tags={o.data.get('$tags')!r}, expected {exp!r}")
+    # ---- the same two transforms reached through the query built-ins (rule dicts instead of Rule objects)
+    from aw_query.functions import functions as _qf
+
+    with sut("query built-ins categorize/tag"):
+        outc = _qf["categorize"](None, {}, _mk(Event, evs), [[list(r["cat"]), dict(r["rule"])] for r in rules])
+        outt = _qf["tag"](None, {}, _mk(Event, evs), [[r["tag"], dict(r["rule"])] for r in rules])
+    _frame("categorize (query built-in)", evs, datas, outc, {"$category"})
+    _frame("tag (query built-in)", evs, datas, outt, {"$tags"})
+    for d, oc, ot in zip(datas, outc, outt):
+        matching = [r for r in rules if _ref_match(r["rule"], d)]
+        exp = ["Uncategorized"]
+        for r in matching:
+            if len(r["cat"]) >= len(exp):
+                exp = r["cat"]
+        if oc.data.get("$category") != exp:
+            raise Violation(f"categorize via the query built-in: data {d!r} rules {rules!r}: $category={oc.data.get('$category')!r}, expected {exp!r}")
+        if ot.data.get("$tags") != [r["tag"] for r in matching]:
+            raise Violation(f"tag via the query built-in: data {d!r} rules {rules!r}: $tags={ot.data.get('$tags')!r}, expected {[r['tag'] for r in matching]!r}")
     for r in rules:
         sk = r["rule"].get("select_keys")
         if sk and r["rule"].get("regex"):
